@@ -308,8 +308,10 @@ class OnlineVariance(object):
                     squares = cnt*(average - avg)**2
                 else:
                     squares += cnt*(average - avg)**2
-            if var is not np.nan:
-                squares += cnt*var 
+            # A rank with fewer than two samples reports NaN. Test the
+            # value: after an MPI gather it is no longer the np.nan object
+            if not np.all(np.isnan(var)):
+                squares += cnt*var
         # squares = counts*variances
         # squares += counts*(average - averages)**2
 
